@@ -239,6 +239,8 @@ where
     pub fn degree(&self) -> usize {
         // one guard for both lengths: taking the read lock a second time while the
         // first guard is alive deadlocks as soon as a writer queues up in between
+        #[cfg(gdsl_verif)]
+        crate::verif_hook::lock_point(&self.inner.2, false, self.key());
         let adjacent = self.inner.2.read().unwrap();
         adjacent.len_outbound() + adjacent.len_inbound()
     }
@@ -246,6 +248,8 @@ where
     /// Number of edges stored as outbound at this node, i.e. the edges created
     /// by calling `connect` on this node. `iter()` yields them first.
     pub(crate) fn outbound_len(&self) -> usize {
+        #[cfg(gdsl_verif)]
+        crate::verif_hook::lock_point(&self.inner.2, false, self.key());
         self.inner.2.read().unwrap().len_outbound()
     }
 
@@ -267,11 +271,15 @@ where
     /// assert!(n1.is_connected(n2.key()));
     /// ```
     pub fn connect(&self, other: &Self, value: E) {
+        #[cfg(gdsl_verif)]
+        crate::verif_hook::lock_point(&self.inner.2, true, self.key());
         self.inner
             .2
             .write()
             .unwrap()
             .push_outbound((other.clone(), value.clone()));
+        #[cfg(gdsl_verif)]
+        crate::verif_hook::lock_point(&other.inner.2, true, other.key());
         other
             .inner
             .2
@@ -341,14 +349,22 @@ where
         // have to be removed, each under its own borrow.
         match self.find_adjacent(other) {
             Some(other) => {
+                #[cfg(gdsl_verif)]
+                crate::verif_hook::lock_point(&self.inner.2, true, self.key());
                 let inbound = self.inner.2.write().unwrap().remove_inbound(other.key());
                 match inbound {
                     Ok(edge) => {
+                        #[cfg(gdsl_verif)]
+                        crate::verif_hook::lock_point(&other.inner.2, true, other.key());
                         other.inner.2.write().unwrap().remove_outbound(self.key())?;
                         Ok(edge)
                     }
                     Err(_) => {
+                        #[cfg(gdsl_verif)]
+                        crate::verif_hook::lock_point(&self.inner.2, true, self.key());
                         let edge = self.inner.2.write().unwrap().remove_outbound(other.key())?;
+                        #[cfg(gdsl_verif)]
+                        crate::verif_hook::lock_point(&other.inner.2, true, other.key());
                         other.inner.2.write().unwrap().remove_inbound(self.key())?;
                         Ok(edge)
                     }
@@ -387,6 +403,8 @@ where
     /// ```
     pub fn isolate(&self) {
         for Edge(_, v, _) in self.iter() {
+            #[cfg(gdsl_verif)]
+            crate::verif_hook::lock_point(&v.inner.2, true, v.key());
             if v.inner
                 .2
                 .write()
@@ -394,6 +412,8 @@ where
                 .remove_inbound(self.key())
                 .is_err()
             {
+                #[cfg(gdsl_verif)]
+                crate::verif_hook::lock_point(&v.inner.2, true, v.key());
                 v.inner
                     .2
                     .write()
@@ -402,13 +422,19 @@ where
                     .unwrap();
             }
         }
+        #[cfg(gdsl_verif)]
+        crate::verif_hook::lock_point(&self.inner.2, true, self.key());
         self.inner.2.write().unwrap().clear_outbound();
+        #[cfg(gdsl_verif)]
+        crate::verif_hook::lock_point(&self.inner.2, true, self.key());
         self.inner.2.write().unwrap().clear_inbound();
     }
 
     /// Returns true if the node is an oprhan. Orphan nodes are nodes that have
     /// no connections.
     pub fn is_orphan(&self) -> bool {
+        #[cfg(gdsl_verif)]
+        crate::verif_hook::lock_point(&self.inner.2, false, self.key());
         let adjacent = self.inner.2.read().unwrap();
         adjacent.len_outbound() == 0 && adjacent.len_inbound() == 0
     }
@@ -421,6 +447,8 @@ where
     /// Get a pointer to an adjacent node with a given key. Returns None if no
     /// node with the given key is found from the node's adjacency list.
     pub fn find_adjacent(&self, other: &K) -> Option<Node<K, N, E>> {
+        #[cfg(gdsl_verif)]
+        crate::verif_hook::lock_point(&self.inner.2, false, self.key());
         self.inner
             .2
             .read()
@@ -549,6 +577,8 @@ where
     type Item = Edge<K, N, E>;
 
     fn next(&mut self) -> Option<Self::Item> {
+        #[cfg(gdsl_verif)]
+        crate::verif_hook::lock_point(&self.node.inner.2, false, self.node.key());
         let adjacent = &self.node.inner.2.read().unwrap();
         match adjacent.get_adjacent(self.position) {
             Some((n, e)) => {
